@@ -69,6 +69,8 @@ def pacts(script):
         elif k == 'wait': out.append('AWait %d' % a[1])
         elif k == 'flowget': out += ['AWait %d' % a[1], 'AFlowLog %d' % a[1]]
         elif k == 'log': out.append('ALog %s' % pval(a[1]))
+        elif k == 'raisebase': out.append('ARaiseBase')
+        elif k == 'relay': out.append('ARelay %d %s' % (a[1], pval(a[2])))
         else: raise ValueError(a)
     return '[' + '; '.join(out) + ']'
 
@@ -141,6 +143,12 @@ def gscript(rng, nr, nc, me, kind, mode, cells):
     out = []
     for _ in range(n):
         x = rng.random()
+        if kind == 'gen' and x < 0.05 and nr > 1:
+            # hand a nested routine's value on (larger index only in the plain stream: no re-entry there)
+            cand = [j for j in range(nr) if j != me and (mode != 'plain' or j > me)]
+            if cand:
+                out.append(['relay', rng.choice(cand), gval(rng)])
+                continue
         if kind == 'gen' and x < 0.34:
             out.append(['yield', gval(rng, 0.7 if mode == 'cond' else 0.5)])
         elif kind == 'gen' and nc and x < (0.6 if mode == 'cond' else 0.38):
@@ -152,8 +160,10 @@ def gscript(rng, nr, nc, me, kind, mode, cells):
             out.append(['log', gval(rng)])
         elif x < 0.88:
             out.append(['return'])
-        elif x < 0.92:
+        elif x < 0.905:
             out.append(['raise'])
+        elif x < 0.92:
+            out.append(['raisebase', rng.randrange(4)])
         elif x < 0.96:
             out.append(['yreset', gval(rng)])
         else:
@@ -185,6 +195,49 @@ def gcase(rng, mode):
     return {'defs': defs, 'cells': cells, 'ops': ops, 'mode': mode}
 
 
+def gchain(rng):
+    """played routine 0 -> relay routines -> a routine that waits on a Condition / reads a FlowVar, at nesting depth
+    1..4 below the played routine; then the condition is signalled / unhung / the value assigned, from outside or from
+    another played routine, and the scheduler runs"""
+    depth = rng.randint(1, 4)
+    flow = rng.random() < 0.5
+    cells = ['flow' if flow else 'cond']
+    defs = []
+    for i in range(depth):
+        sc = [['log', ['str', i]]] if rng.random() < 0.3 else []
+        sc += [['relay', i + 1, ['none']], ['log', ['str', 10 + i]]]
+        sc += [['relay', i + 1, ['none']]] if rng.random() < 0.5 else [['yield', gval(rng)]]
+        defs.append({'kind': 'gen', 'hasin': rng.random() < 0.5, 'script': sc})
+    last = [['flowget', 0] if flow and rng.random() < 0.8 else ['wait', 0], ['log', ['str', 20]], ['yield', gval(rng)]]
+    if rng.random() < 0.3:
+        last += [['wait', 0], ['yield', gval(rng)]]
+    defs.append({'kind': 'gen', 'hasin': rng.random() < 0.5, 'script': last})
+    waker = None
+    if rng.random() < 0.4:      # a second played routine does the signalling
+        w = [['yield', ['int', rng.choice([0, 1])]]]
+        w.append(['call', ['flowset', 0, gval(rng)], True] if flow else ['call', ['settest', 0, True], True])
+        w.append(['call', [rng.choice(['signal', 'unhang']), 0], True])
+        defs.append({'kind': 'gen', 'hasin': False, 'script': w})
+        waker = len(defs) - 1
+    ops = [['call', ['play', 0]]]
+    if waker is not None:
+        ops.append(['call', ['play', waker]])
+    ops += [['tick']] * rng.randint(1, 3)
+    for _ in range(rng.randint(1, 3)):
+        k = rng.random()
+        if k < 0.3:
+            ops.append(['call', ['unhang', 0]])
+        elif flow:
+            ops.append(['call', ['flowset', 0, gval(rng)]])
+        else:
+            ops += [['call', ['settest', 0, rng.random() < 0.8]], ['call', ['signal', 0]]]
+        if rng.random() < 0.3:
+            ops.append(['call', ['signal', 0]])
+        ops += [['tick']] * rng.randint(1, 3)
+    ops += [['tick']] * 2
+    return {'defs': defs, 'cells': cells, 'ops': ops, 'mode': 'chain%d' % depth}
+
+
 CORPUS = os.path.join(fw.VERIF, 'corpus', 'C11_histories.json')
 
 
@@ -194,7 +247,10 @@ def gen_cases(ctx, n):
         cases += json.load(open(CORPUS))
     for i in range(n):
         x = ctx.rng.random()
-        mode = 'plain' if x < 0.4 else 'cond' if x < 0.75 else 'reentrant'
+        if x < 0.12:
+            cases.append(gchain(ctx.rng))
+            continue
+        mode = 'plain' if x < 0.45 else 'cond' if x < 0.78 else 'reentrant'
         cases.append(gcase(ctx.rng, mode))
     return cases
 
@@ -314,6 +370,10 @@ def correspond(ctx):
     c.count('cases:skipped(recursion-limit or inexpressible value)', len(cases) - len(keep))
     for k, r in keep:
         c.count('mode:' + k.get('mode', 'corpus'))
+        for d in k['defs']:
+            for a in d['script']:
+                if a[0] in ('raisebase', 'relay'):
+                    c.count('act:' + a[0])
         c.count('routines:%d' % len(k['defs']))
         for o in k['ops']:
             c.count('op:' + (o[0] if o[0] == 'tick' else o[1][0]))
@@ -430,6 +490,7 @@ def _mentions(k, r):
 
 SIGNATURES = {'current_tt': SIG_REENTRY, 'running_outside': SIG_REENTRY, 'inside_view': SIG_REENTRY,
               'self_op': SIG_REENTRY, 'stale_terminal': SIG_STALE}
+# (other monitors - failure_not_done, wait_registers, ... - have no known-finding signature)
 
 
 def search(ctx, failures):
